@@ -1,0 +1,67 @@
+//! Verification hooks. This whole module is compiled only with `--cfg edp_rs_verif`
+//! (see `/verif` of the verification harness); it is absent from normal builds.
+//!
+//! All hooks are thread-local so that independent test cases can run on parallel
+//! threads, each with its own current-thread runtime.
+
+use std::cell::{Cell, RefCell};
+use std::future::Future;
+use std::pin::Pin;
+use std::rc::Rc;
+use std::task::{Context, Poll};
+
+thread_local! {
+    static EPMD_PORT: Cell<Option<u16>> = const { Cell::new(None) };
+    static SYNC_POINT: RefCell<Option<Rc<dyn Fn(&'static str)>>> = const { RefCell::new(None) };
+    static SCHED_POINT: RefCell<Option<Rc<dyn Fn(&'static str) -> usize>>> = const { RefCell::new(None) };
+}
+
+/// Port that `EpmdClient::new` uses instead of 4369 on this thread.
+pub fn set_epmd_port(port: Option<u16>) {
+    EPMD_PORT.with(|p| p.set(port));
+}
+
+pub fn epmd_port() -> Option<u16> {
+    EPMD_PORT.with(|p| p.get())
+}
+
+/// Callback invoked at every synchronous instrumentation point reached on this thread.
+pub fn set_sync_point(callback: Option<Rc<dyn Fn(&'static str)>>) {
+    SYNC_POINT.with(|c| *c.borrow_mut() = callback);
+}
+
+pub fn sync_point(tag: &'static str) {
+    let callback = SYNC_POINT.with(|c| c.borrow().clone());
+    if let Some(callback) = callback {
+        callback(tag);
+    }
+}
+
+/// Callback asked, at every asynchronous instrumentation point, how many times to yield there.
+pub fn set_sched_point(callback: Option<Rc<dyn Fn(&'static str) -> usize>>) {
+    SCHED_POINT.with(|c| *c.borrow_mut() = callback);
+}
+
+pub async fn sched_point(tag: &'static str) {
+    let callback = SCHED_POINT.with(|c| c.borrow().clone());
+    let yields = callback.map_or(0, |callback| callback(tag));
+    for _ in 0..yields {
+        YieldNow(false).await;
+    }
+}
+
+struct YieldNow(bool);
+
+impl Future for YieldNow {
+    type Output = ();
+
+    fn poll(mut self: Pin<&mut Self>, cx: &mut Context<'_>) -> Poll<()> {
+        if self.0 {
+            Poll::Ready(())
+        } else {
+            self.0 = true;
+            cx.waker().wake_by_ref();
+            Poll::Pending
+        }
+    }
+}
